@@ -214,7 +214,9 @@ func pxRouting() []pxScenario {
 		next []int64
 		tag  string
 	}{{false, nil, "next=nil"}, {true, nil, "next=empty"}, {true, []int64{2}, "next=1hop"}, {true, []int64{3, 2}, "next=2hops"},
-		{true, []int64{2, 4}, "next=to-dialable"}, {true, []int64{7}, "next=to-unknown"}}
+		{true, []int64{2, 4}, "next=to-dialable"}, {true, []int64{7}, "next=to-unknown"},
+		{true, []int64{99}, "next=own-id"}, {true, []int64{2, 99}, "next=x,own-id"}, {true, []int64{99, 99}, "next=own-id,own-id"},
+		{true, []int64{99, 2, 7}, "next=3hops"}}
 	recs := [][]int64{nil, {8}, {8, 99}}
 	dsts := []int64{1, 2, 3, 4, 5, 102, 103, 107}
 	for icp := 0; icp <= 5; icp++ {
@@ -361,6 +363,34 @@ func pxWriterFaults(how string, variant int) pxScenario {
 	return pxScenario{Icp: 0, ByRef: variant%2 == 0, Steps: b.steps, Tags: []string{"writer-faults", "write=" + how}}
 }
 
+// a connection fails and the disconnect callback re-attaches a peer by calling AddClient from inside the callback
+// (the same name, or another one); then traffic for the re-attached name must arrive on the new connection
+func pxReattachInCallback(how string, same bool, variant int) pxScenario {
+	b := &pxBuilder{tok: 950}
+	b.add(att(1)...)
+	b.add(att(2)...)
+	b.add(b.send(1, 2))
+	target := int64(2)
+	if !same {
+		target = 3
+	}
+	b.add(PAct{Op: "onfail-attach", N: 2, Dst: target}, PAct{Op: "setw", N: 2, M: "ok"})
+	switch how {
+	case "read":
+		b.add(PAct{Op: "failread", N: 2, Err: variant})
+	case "write":
+		b.add(PAct{Op: "setw", N: 2, M: "fail", Err: variant})
+		b.add(b.send(1, 2))
+	}
+	b.add(b.send(1, target))
+	b.add(b.send(target, 1))
+	b.add(b.send(1, 2))
+	b.add(PAct{Op: "dial", N: 2, M: "ok"})
+	b.add(b.send(1, 2))
+	return pxScenario{Icp: 0, ByRef: variant%2 == 0, Steps: b.steps,
+		Tags: []string{"reattach-in-callback", "fails=" + how, fmt.Sprintf("same-name=%v", same)}}
+}
+
 func pxRandomWalk(r *rand.Rand, n int, faults bool) pxScenario {
 	b := &pxBuilder{tok: 1000}
 	names := []int64{1, 2, 3, 4, 5, 6, 102, 7}
@@ -495,6 +525,14 @@ func c16Scenarios() []pxScenario {
 	for _, how := range []string{"failafter", "blocked-failafter", "fail", "failafter-burst"} {
 		for v := 0; v < 4; v++ {
 			out = append(out, pxWriterFaults(how, v))
+		}
+	}
+	// 3b''. AddClient from inside the disconnect callback
+	for _, how := range []string{"read"} { // (a write failure needs an envelope in the same step: AddClient would not be alone in it)
+		for _, same := range []bool{true, false} {
+			for v := 0; v < 2; v++ {
+				out = append(out, pxReattachInCallback(how, same, v))
+			}
 		}
 	}
 	// 3c. every envelope shape
